@@ -31,16 +31,16 @@ Want(p) == Props = "ALL" \/ \E k \in 1..(Len(Props) - 2) : SubSeq(Props, k, k + 
 \* evaluate the selected predicates on a finished scenario; print failures
 Judge(c, hist, S) ==
   LET cfg == c.cfg
-      res == [C01 |-> IF Want("C01") THEN P!Failing(P!C01_Clauses(cfg, S)) ELSE {},
+  IN \E res \in {[C01 |-> IF Want("C01") THEN P!Failing(P!C01_Clauses(cfg, S)) ELSE {},
               C02 |-> IF Want("C02") THEN P!Failing(P!C02_Clauses(cfg, S)) ELSE {},
               C03 |-> IF Want("C03") THEN P!Failing(P!C03_Clauses(cfg, S)) ELSE {},
               C04 |-> IF Want("C04") THEN P!Failing(P!C04_Clauses(cfg, S)) ELSE {},
               C05 |-> IF Want("C05") THEN P!Failing(P!C05_Clauses(cfg, S)) ELSE {},
               C10 |-> IF Want("C10") THEN P!Failing(P!C10_Clauses(cfg, S)) ELSE {},
               C17 |-> IF Want("C17") THEN P!Failing(P!C17_Clauses(cfg, S)) ELSE {},
-              C18 |-> IF Want("C18") THEN P!Failing(P!C18_Clauses(cfg, S)) ELSE {}]
-      bad == {p \in DOMAIN res : res[p] # {}}
-  IN /\ \A p \in bad : PrintT(<<"FAIL", c.scn, p, res[p]>>)
+              C18 |-> IF Want("C18") THEN P!Failing(P!C18_Clauses(cfg, S)) ELSE {}]} :
+     LET bad == {p \in DOMAIN res : res[p] # {}} IN
+     /\ \A p \in bad : PrintT(<<"FAIL", c.scn, p, res[p]>>)
      /\ (c.hasexp /\ c.exp # hist) => PrintT(<<"DRIFT", c.scn>>)
 
 HitKeys == {"retried", "fallback", "failedRun", "cancelled", "multiNode", "nested", "emptyAct", "eres", "funcNode"}
@@ -51,10 +51,10 @@ Init == /\ i = 1
 Next ==
   /\ i <= Len(Trace)
   /\ i' = i + 1
-  /\ LET c == Trace[i]
-         S == P!Segs(c.h)
-         x == P!EngineHits(c.cfg, S)
-     IN /\ Judge(c, c.h, S)
+  \* TLC does not cache LET definitions while it evaluates an action: binding the digest with a
+  \* quantifier over a singleton set makes it a value that is computed once
+  /\ \E c \in {Trace[i]} : \E S \in {P!Segs(c.h)} : \E x \in {P!EngineHits(c.cfg, S)} :
+        /\ Judge(c, c.h, S)
         /\ stats' = [scenarios |-> stats.scenarios + 1, events |-> stats.events + Len(c.h),
                      hits |-> [k \in HitKeys |-> stats.hits[k] + (IF x[k] THEN 1 ELSE 0)]]
   /\ (i = Len(Trace) => PrintT(<<"SUMMARY", stats'>>))
